@@ -5,7 +5,7 @@ import ast
 
 from sa.engine.facts import Bad, F
 from sa.engine.pattern import u, dump
-from sa.engine.source import norm
+from sa.engine.source import norm, own_walk
 from .common import guarded_take, A, MEM, checkpoint_typestate, queue_ends, waiter_guard
 
 EXPLANATION = ("Memory object streams: exactly-once placement in send_nowait, exactly-once take in receive_nowait, bounded buffer appends, "
@@ -240,6 +240,50 @@ def check(ctx):
     sc = ctx.sites(hp, "return $S._effectively_cancelled")
     ctx.ob("R12-h", hp, "otherwise the verdict is the task's current scope's effective cancellation", len(sc) == 1,
            detail="" if sc else "no `return cancel_scope._effectively_cancelled`", by=("return cancel_scope._effectively_cancelled",))
+
+    # ... and every disjunct is about the task the snapshot was taken of (not the caller of send_nowait(), say): the task object comes from
+    # the snapshot's weak reference, and the scope whose effective cancellation is returned is that task's current scope
+    binds: dict = {}
+    for n_ in own_walk(hp.node):
+        if isinstance(n_, ast.NamedExpr) and isinstance(n_.target, ast.Name):
+            binds.setdefault(n_.target.id, []).append(n_.value)
+        elif isinstance(n_, ast.Assign) and len(n_.targets) == 1 and isinstance(n_.targets[0], ast.Name):
+            binds.setdefault(n_.targets[0].id, []).append(n_.value)
+
+    def res_(e_, depth=0):
+        """substitute single-definition locals"""
+        if depth > 8:
+            return e_
+        if isinstance(e_, ast.Name) and len(binds.get(e_.id, [])) == 1:
+            return res_(binds[e_.id][0], depth + 1)
+        if isinstance(e_, ast.Attribute):
+            return ast.Attribute(value=res_(e_.value, depth + 1), attr=e_.attr, ctx=ast.Load())
+        if isinstance(e_, ast.Call):
+            return ast.Call(func=res_(e_.func, depth + 1), args=[res_(a_, depth + 1) for a_ in e_.args], keywords=e_.keywords)
+        if isinstance(e_, ast.Subscript):
+            return ast.Subscript(value=res_(e_.value, depth + 1), slice=res_(e_.slice, depth + 1), ctx=ast.Load())
+        return e_
+
+    SNAP = "self._task()"
+    subj = []
+    for pat_ in ("$T._must_cancel", "$T._fut_waiter.cancelled()"):
+        subj += [(st_, norm(res_(e_["T"]))) for st_, e_ in ctx.sites(hp, pat_)]
+    for st_, t_ in subj:
+        ok = t_ == SNAP
+        ctx.ob("R12-h", hp, "the native-cancellation disjuncts look at the snapshot's own task", ok, node=st_, by=(t_,),
+               detail="" if ok else f"`{norm(st_)[:80]}` consults `{t_}`, not the task this TaskInfo describes (`{SNAP}`)")
+    for st_, e_ in sc:
+        got = norm(res_(e_["S"]))
+        want = {f"_task_states.get({SNAP}).cancel_scope", f"_task_states[{SNAP}].cancel_scope"}
+        ok = got in want
+        ctx.ob("R12-h", hp, "the scope consulted is the current scope of the snapshot's own task", ok, node=st_, by=(got,),
+               detail="" if ok else f"the verdict is `{got}._effectively_cancelled`: that is not the scope of the task this TaskInfo describes "
+                                    f"(a live receiver is dropped from the wait queue when the *sender* happens to be cancelled)")
+
+    # ---- R12-j "will not be cancelled" is decided by a correct walk of the receiver's scope chain (shields of *every* scope on the way
+    # are honoured): a receiver inside a shielded clean-up below a cancelled scope is alive (shared with C04/R04-a)
+    from .walkers import check_walker
+    check_walker(ctx, "R12-j", ctx.fn("CancelScope._effectively_cancelled", A))
 
     # ---- R12-i `async for` over the stream is receive() until EndOfStream -------------------------------------------------------------
     from .common import iteration_protocol
